@@ -150,7 +150,7 @@ func C04() int {
 	reportBatchAnomalies(c)
 	c.Set("distinct_noncanonical_number_literals_in_inputs", len(nonCanon))
 	c.Set("flag_sets", flagNames(fsets))
-	c.Set("race_reports", s.RaceReports())
+	raceVerdict(s, c)
 	if c.Counter("kept_leaves_compared") < 100000 {
 		c.Inconclusive(fmt.Sprintf("only %d non-zone leaves compared", c.Counter("kept_leaves_compared")))
 	}
